@@ -645,6 +645,7 @@ func quiesce(b *built, c Case, produced int64) bool {
 	}
 	begin := time.Now()
 	last, lastChange := progress(), time.Now()
+	still := 0 // consecutive polls without movement (guards against the whole process having been stopped for a while)
 	for {
 		if len(b.asyncRecs) > 0 && last >= produced {
 			// every produced message is accounted for (delivered or reported): let in-flight writes land
@@ -652,10 +653,13 @@ func quiesce(b *built, c Case, produced int64) bool {
 			return true
 		}
 		time.Sleep(10 * time.Millisecond)
+		runtime.Gosched()
 		if v := progress(); v != last {
-			last, lastChange = v, time.Now()
+			last, lastChange, still = v, time.Now(), 0
+		} else {
+			still++
 		}
-		if time.Since(lastChange) > window {
+		if time.Since(lastChange) > window && still >= 100 {
 			return true
 		}
 		if time.Since(begin) > 90*time.Second {
